@@ -144,3 +144,6 @@ Definition names_arr (a : nat) (rows : list row) : arr2 name := (a, map (fun r =
 Definition doses_arr (a : nat) (rows : list row) : arr2 Z := (a, map (fun r => map snd (r_treats r)) rows).
 Definition tmap_arg_py (tm : option (tmapping * bool)) : option tmap_py := option_map (fun mb => tmap_py_of (fst mb) (snd mb)) tm.
 Definition smap_arg_py (sm : option (nmapping * bool)) : option smap_py := option_map (fun mb => smap_py_of (fst mb) (snd mb)) sm.
+(* np.setdiff1d(a, b): the sorted distinct values of a that are not in b (ExperimentSpace.n_unique_treatments) *)
+Definition np_setdiff1d (a b : list Z) : list Z :=
+  sort_uniq Z.compare (filter (fun x => negb (existsb (Z.eqb x) b)) a).
